@@ -208,6 +208,20 @@ class Summariser:
             pk = self.port_key(e.value, env)
             if pk is not None and e.attr == 'value':
                 return ('get', pk)
+            # class-level constant: ClassName.NAME with `NAME = <constant expression>` in the body of the class (or of a base class)
+            if isinstance(e.value, ast.Name) and self.c is not None:
+                for k in [self.c] + [b for b in self.facts.mro(self.c) if b is not self.c]:
+                    if k.name != e.value.id:
+                        continue
+                    for st in k.node.body:
+                        if isinstance(st, ast.Assign) and len(st.targets) == 1 and isinstance(st.targets[0], ast.Name) and st.targets[0].id == e.attr:
+                            written = any(isinstance(n, (ast.Assign, ast.AugAssign)) and any(
+                                isinstance(t, ast.Attribute) and t.attr == e.attr for t in (n.targets if isinstance(n, ast.Assign) else [n.target]))
+                                for m in k.methods.values() for n in ast.walk(m))
+                            if not written:
+                                v = self.expr(st.value, Env())
+                                if v[0] == 'c':
+                                    return v
             raise NotSummarisable('attribute ' + norm(e))
         if isinstance(e, ast.BinOp):
             if type(e.op) not in BINOPS:
